@@ -124,7 +124,11 @@ def stub_form_invMfactors(theta, STS, L, D):
 def stub_line_search(x0, f0, g0, d, lb, ub, above_iter, max_steplength_user, is_boxed, sf, ftol=1e-3, gtol=0.9,
                      xtol=1e-1, max_iter=30, iprint=10, logger=None, *a, **k):
     """Contract stub.  Deterministic given its (syntactic) inputs so that two runs in lock-step agree."""
-    key = _key(x0, f0, g0, d, max_iter)
+    # the real line search treats the very first iteration (above_iter == 0) differently (first trial step,
+    # step cap): the contract is functional in the inputs AND in that flag, which the caller must pass
+    # identically in an uninterrupted run and in a restarted one
+    first = bool(int(above_iter) == 0)
+    key = _key(x0, f0, g0, d, max_iter) + (("first", first),)
     n = x0.shape[0]
     memo = ST.ls_memo.get(key)
     if memo is None:
@@ -145,7 +149,7 @@ def stub_line_search(x0, f0, g0, d, lb, ub, above_iter, max_steplength_user, is_
                 # functional in the (semantic) inputs, so that two runs fed equal states take equal steps
                 if ST.alpha_uf is None:
                     ST.alpha_uf = {}
-                uf = ST.alpha_uf.setdefault((n, int(max_iter)), UF("alpha_n%d_" % n, 1))
+                uf = ST.alpha_uf.setdefault((n, int(max_iter), first), UF("alpha_n%d_%s" % (n, "it0_" if first else ""), 1))
                 al = uf(_flat(x0, f0, g0, d))[0]
             else:
                 al = SReal(CTX.fresh("alpha"))
